@@ -70,7 +70,8 @@ struct EvaluatedDecisionTable {
   component_names: Vec<Name>,
   /// Output values of every output clause (empty when the clause defines no output values).
   output_values: Vec<Vec<Value>>,
-  default_output_values: Vec<Value>,
+  /// Default output value of every output clause (`None` when the clause defines no default output entry).
+  default_output_values: Vec<Option<Value>>,
   evaluated_rules: Vec<EvaluatedRule>,
 }
 
@@ -130,11 +131,21 @@ impl EvaluatedDecisionTable {
   }
   ///
   fn evaluate_default_output_value(&self) -> Value {
-    match self.default_output_values.len() {
-      0 => value_null!("no rules matched, no output value defined"),
-      1 => self.default_output_values[0].clone(),
-      _ => value_null!(),
+    if self.default_output_values.iter().all(|value| value.is_none()) {
+      return value_null!("no rules matched, no output value defined");
     }
+    let default_value = |value: &Option<Value>| value.clone().unwrap_or_else(|| value_null!());
+    if self.default_output_values.len() == 1 {
+      return default_value(&self.default_output_values[0]);
+    }
+    if self.default_output_values.len() != self.component_names.len() {
+      return value_null!("err_number_of_output_values_differ_from_component_names");
+    }
+    let mut result: FeelContext = Default::default();
+    for (name, value) in self.component_names.iter().zip(self.default_output_values.iter()) {
+      result.set_entry(name, default_value(value));
+    }
+    Value::Context(result)
   }
   ///
   fn evaluate_hit_policy_unique(&self) -> Value {
@@ -359,12 +370,18 @@ fn evaluate_parsed_decision_table(scope: &Scope, parsed_decision_table: &ParsedD
     }
     output_values.push(clause_output_values);
   }
-  // evaluate only non-empty default output values
+  // evaluate the default output value separately for every output clause
   let mut default_output_values = vec![];
-  for evaluator in parsed_decision_table.default_output_values_evaluators.iter().flatten() {
-    if let Value::ExpressionList(values) = evaluator(scope) {
-      default_output_values.append(&mut values.as_vec().to_owned());
+  for opt_evaluator in &parsed_decision_table.default_output_values_evaluators {
+    let mut default_output_value = None;
+    if let Some(evaluator) = opt_evaluator {
+      if let Value::ExpressionList(values) = evaluator(scope) {
+        if let [value] = values.as_vec().as_slice() {
+          default_output_value = Some(value.clone());
+        }
+      }
     }
+    default_output_values.push(default_output_value);
   }
   // evaluate all rules
   let mut evaluated_rules = vec![];
